@@ -74,6 +74,11 @@ func (s *CollapsingHighestDenseStore) extendRange(newMinIndex, newMaxIndex int) 
 	if s.IsEmpty() {
 		initialLength := s.getNewLength(newMinIndex, newMaxIndex)
 		s.bins = append(s.bins, make([]float64, initialLength)...)
+		if newMaxIndex-newMinIndex+1 > initialLength {
+			// The range is too wide for the store, which holds nothing to collapse yet.
+			newMaxIndex = newMinIndex + initialLength - 1
+			s.isCollapsed = true
+		}
 		s.offset = newMinIndex
 		s.minIndex = newMinIndex
 		s.maxIndex = newMaxIndex
